@@ -57,3 +57,7 @@ class OsslEndpoint {
 };
 
 const char *ossl_cipher_name_for_id(uint16_t id);   // OpenSSL name of an IANA suite id ("" if OpenSSL does not have it)
+
+// Build a DER CRL issued (and signed) by the CA of test identity `kind` (CA key read from <repo>/testkeys), optionally revoking that
+// identity's leaf certificate.  Used by C20 (CRL cache operations concurrent with handshakes).
+bool ossl_make_crl(int kind, bool revoke_leaf, Bytes &der, std::string *err);
